@@ -8,6 +8,7 @@ import (
 
 	"github.com/InVisionApp/go-health/v2"
 	"github.com/InVisionApp/go-health/v2/checkers"
+	"github.com/f1bonacc1/process-compose/src/verif"
 	"github.com/rs/zerolog/log"
 )
 
@@ -50,8 +51,11 @@ func New(name string, probe Probe, onCheckEnd func(bool, bool, string)) (*Prober
 }
 
 func (p *Prober) Start() {
+	verif.Spawn()
 	go func() {
+		verif.Begin("pstart", p.name)
 		p.stopped.Store(false)
+		verif.End()
 		time.Sleep(time.Duration(p.probe.InitialDelay) * time.Second)
 		if p.stopped.Load() {
 			return
